@@ -7,6 +7,7 @@
    the connection model with the implementation and the wire ground-truth oracle of checks/c02.py; the known finding S33
    (a folded response value containing ':') is a counter-example to the full statement on the unchanged code. -/
 import HtpModel.Lemmas.Parse
+import HtpModel.Lemmas.ReqLine
 
 namespace Htp.C02
 open Htp Htp.Gen Htp.Parse
@@ -88,5 +89,61 @@ theorem C02_header_roundtrip (data0 name value : Bytes) (r : Nat)
 example : chomp (b!"Host: www.example.com\r\n") = ((b!"Host") ++ 0x3a :: 0x20 :: (b!"www.example.com"), 2) := by decide
 example : parseRequestHeader (b!"Host: www.example.com\r\n") = ({ name := (b!"Host"), value := (b!"www.example.com"), flags := 0 }, 0) :=
   C02_header_roundtrip _ (b!"Host") (b!"www.example.com") 2 (by decide) (by decide) (by decide) (by decide) (by decide)
+/-- **C02 (request line)**: a request line `method SP target SP protocol` whose three parts contain no white space is reported with
+    exactly that method, target and protocol (default line handling: no NUL termination, no space inside the target). -/
+theorem C02_request_line_roundtrip (cfg : Cfg) (m u p : Bytes)
+    (hc1 : cfg.reqLineNulTerminates = false) (hc2 : cfg.allowSpaceUri = false)
+    (hm : ∀ b ∈ m, isSpace b = false) (hmne : m ≠ [])
+    (hu : ∀ b ∈ u, isSpace b = false ∧ cIsspace b = false ∧ b ≠ 0x20) (hune : u ≠ [])
+    (hp : ∀ b ∈ p, isSpace b = false) (hpne : p ≠ []) :
+    parseRequestLine cfg (m ++ 0x20 :: (u ++ 0x20 :: p)) =
+      { method := m, methodNumber := methodNumber m, uri := some u, protocol := some p, protocolNumber := parseProtocol p } := by
+  obtain ⟨u0, ut, hue⟩ := List.exists_cons_of_ne_nil hune
+  obtain ⟨p0, pt, hpe⟩ := List.exists_cons_of_ne_nil hpne
+  obtain ⟨m0, mt, hme⟩ := List.exists_cons_of_ne_nil hmne
+  have hm0 : isSpace m0 = false := hm m0 (by rw [hme]; simp)
+  have hu0 := hu u0 (by rw [hue]; simp)
+  have hp0 : isSpace p0 = false := hp p0 (by rw [hpe]; simp)
+  generalize hD : m ++ 0x20 :: (u ++ 0x20 :: p) = D
+  have hlen : D.length = m.length + 1 + u.length + 1 + p.length := by rw [← hD]; simp; omega
+  have e1 : scanFwd (fun c => !isSpace c) D 0 = 0 := by
+    rw [← hD, hme]; unfold scanFwd; simp [List.takeWhile, hm0]
+  have e2 : scanFwd isSpace D 0 = m.length := by
+    have := scanFwd_at isSpace D [] m 0x20 (u ++ 0x20 :: p) 0 (by rw [← hD]; simp) rfl hm sp20
+    simpa using this
+  have e3 : scanFwd (fun c => !cIsspace c) D m.length = m.length + 1 := by
+    exact scanFwd_at (fun c => !cIsspace c) D m [0x20] u0 (ut ++ 0x20 :: p) m.length (by rw [← hD, hue]; simp) rfl
+      (by intro b hb; simp at hb; subst hb; simp [csp20]) (by simp [hu0.2.1])
+  have e4 : scanFwd (fun c => c == 0x20) D (m.length + 1) = m.length + 1 + u.length := by
+    exact scanFwd_at (fun c => c == 0x20) D (m ++ [0x20]) u 0x20 p (m.length + 1) (by rw [← hD]; simp) (by simp)
+      (by intro b hb; simpa using (hu b hb).2.2) (by simp)
+  have e5 : scanFwd (fun c => !isSpace c) D (m.length + 1 + u.length) = m.length + 1 + u.length + 1 := by
+    exact scanFwd_at (fun c => !isSpace c) D (m ++ 0x20 :: u) [0x20] p0 pt (m.length + 1 + u.length) (by rw [← hD, hpe]; simp) (by simp; omega)
+      (by intro b hb; simp at hb; subst hb; simp [sp20]) (by simp [hp0])
+  have t1 : (D.drop 0).take (m.length - 0) = m := by rw [← hD]; simp
+  have t2 : (D.drop (m.length + 1)).take (m.length + 1 + u.length - (m.length + 1)) = u := by
+    have : m.length + 1 + u.length - (m.length + 1) = u.length := by omega
+    rw [this, ← hD]
+    have : (m ++ 0x20 :: (u ++ 0x20 :: p)).drop (m.length + 1) = u ++ 0x20 :: p := by
+      rw [show m ++ 0x20 :: (u ++ 0x20 :: p) = (m ++ [0x20]) ++ (u ++ 0x20 :: p) by simp, List.drop_append]; simp
+    rw [this]; simp
+  have t3 : D.drop (m.length + 1 + u.length + 1) = p := by
+    rw [← hD, show m ++ 0x20 :: (u ++ 0x20 :: p) = (m ++ 0x20 :: u ++ [0x20]) ++ p by simp]
+    exact List.drop_left' (by simp; omega)
+  have t4 : u.any isSpace = false := by
+    simp; intro b hb; exact (hu b hb).1
+  unfold parseRequestLine
+  simp only [hc1, hc2, Bool.false_eq_true, if_false, e1, e2, e3, e4, e5, t1, t2, t3, t4, bne_self_eq_false, Bool.false_and, hlen]
+  have n1 : (m.length + 1 == m.length + 1 + u.length + 1 + p.length) = false := by simp; omega
+  have n2 : (m.length + 1 + u.length + 1 == m.length + 1 + u.length + 1 + p.length) = false := by
+    have : 0 < p.length := by rw [hpe]; simp
+    simp; omega
+  simp only [n1, n2, Bool.false_eq_true, if_false]
+
+/-- non-vacuity: an ordinary request line meets the hypotheses -/
+example : parseRequestLine {} (b!"GET /a?b=c HTTP/1.1") =
+    { method := (b!"GET"), methodNumber := methodNumber (b!"GET"), uri := some (b!"/a?b=c"), protocol := some (b!"HTTP/1.1"),
+      protocolNumber := parseProtocol (b!"HTTP/1.1") } :=
+  C02_request_line_roundtrip {} (b!"GET") (b!"/a?b=c") (b!"HTTP/1.1") rfl rfl (by decide) (by decide) (by decide) (by decide) (by decide) (by decide)
 
 end Htp.C02
